@@ -109,6 +109,7 @@ pub struct Stats {
     pub l1_checked: u64,
     pub ref_per_event_runs: u64,
     pub ref_process_runs: u64,
+    pub ref_server_runs: u64,
     // events at which the named failure class WOULD have changed the outcome
     pub disc_leak_ops: u64,
     pub disc_leak_reads: u64,
@@ -183,6 +184,112 @@ pub fn refeval_main() -> Result<i32, String> {
     Ok(0)
 }
 
+/// A long-lived reference process (`sim refserver`) of an in-process shard:
+/// the verdict reference of every run is computed THERE, so that process-wide
+/// state of the library (tables, memos, counters) is never shared between a
+/// simulated execution and its reference.  The two processes have different
+/// histories; that both come out wrong in the same way needs a coincidence.
+pub struct RefServer {
+    child: std::process::Child,
+    to: std::io::BufWriter<std::process::ChildStdin>,
+    from: std::io::BufReader<std::process::ChildStdout>,
+}
+
+impl RefServer {
+    pub fn start() -> Result<RefServer, String> {
+        use std::process::{Command, Stdio};
+        let exe = std::env::current_exe().map_err(|e| e.to_string())?;
+        let mut child = Command::new(exe)
+            .arg("refserver")
+            .stdin(Stdio::piped())
+            .stdout(Stdio::piped())
+            .stderr(Stdio::null())
+            .spawn()
+            .map_err(|e| format!("spawn refserver: {}", e))?;
+        let to = std::io::BufWriter::new(child.stdin.take().ok_or("refserver stdin")?);
+        let from = std::io::BufReader::new(child.stdout.take().ok_or("refserver stdout")?);
+        Ok(RefServer { child, to, from })
+    }
+
+    pub fn eval(&mut self, items: &[(Op, u8)]) -> Result<Vec<String>, String> {
+        use std::io::{BufRead, Write};
+        let mut text = String::new();
+        for (op, m) in items {
+            text.push_str(MODE_NAMES[*m as usize]);
+            text.push(' ');
+            text.push_str(&op.to_text());
+            text.push('\n');
+        }
+        text.push_str("END\n");
+        self.to.write_all(text.as_bytes()).map_err(|e| format!("refserver write: {}", e))?;
+        self.to.flush().map_err(|e| format!("refserver flush: {}", e))?;
+        let mut out = Vec::with_capacity(items.len());
+        loop {
+            let mut line = String::new();
+            let n = self.from.read_line(&mut line).map_err(|e| format!("refserver read: {}", e))?;
+            if n == 0 {
+                return Err("refserver ended unexpectedly".into());
+            }
+            let l = line.trim_end_matches('\n');
+            if l == "END" {
+                break;
+            }
+            out.push(l.to_string());
+        }
+        if out.len() != items.len() {
+            return Err(format!("refserver: {} answers for {} items", out.len(), items.len()));
+        }
+        Ok(out)
+    }
+}
+
+impl Drop for RefServer {
+    fn drop(&mut self) {
+        let _ = self.child.kill();
+        let _ = self.child.wait();
+    }
+}
+
+/// `sim refserver`: batches of `<mode> <op text>` lines terminated by `END`;
+/// each batch is evaluated on a fresh thread and answered line by line.
+pub fn refserver_main() -> Result<i32, String> {
+    use std::io::{BufRead, Write};
+    let stdin = std::io::stdin();
+    let stdout = std::io::stdout();
+    let mut items: Vec<(Op, u8)> = Vec::new();
+    for l in stdin.lock().lines() {
+        let l = l.map_err(|e| e.to_string())?;
+        if l == "END" {
+            let batch = std::mem::take(&mut items);
+            let outs = std::thread::spawn(move || {
+                batch
+                    .iter()
+                    .map(|(op, m)| {
+                        RoundingMode::set_default(MODES[*m as usize]);
+                        exec_plain(op).show()
+                    })
+                    .collect::<Vec<String>>()
+            })
+            .join()
+            .map_err(|_| "refserver thread died".to_string())?;
+            let mut o = stdout.lock();
+            for x in outs {
+                writeln!(o, "{}", x.replace('\n', "\\n")).map_err(|e| e.to_string())?;
+            }
+            writeln!(o, "END").map_err(|e| e.to_string())?;
+            o.flush().map_err(|e| e.to_string())?;
+            continue;
+        }
+        let toks: Vec<&str> = l.split_whitespace().collect();
+        if toks.is_empty() {
+            continue;
+        }
+        let m = crate::ops::mode_from_name(toks[0]).ok_or("refserver: bad mode")?;
+        items.push((Op::parse(&toks[1..])?, m));
+    }
+    Ok(0)
+}
+
 fn reference_in_other_process(items: &[(Op, u8)]) -> Result<Vec<String>, String> {
     use std::io::Write;
     use std::process::{Command, Stdio};
@@ -226,6 +333,7 @@ pub fn judge(
     res: &RunResult,
     per_event: bool,
     other_process: bool,
+    server: Option<&mut RefServer>,
     stats: &mut Stats,
 ) -> Result<Judged, String> {
     // collect the operations to re-execute in isolation
@@ -251,6 +359,9 @@ pub fn judge(
     let external: Option<Vec<String>> = if other_process && !items.is_empty() {
         stats.ref_process_runs += 1;
         Some(reference_in_other_process(&items)?)
+    } else if let (Some(srv), false) = (server, items.is_empty()) {
+        stats.ref_server_runs += 1;
+        Some(srv.eval(&items)?)
     } else {
         None
     };
